@@ -364,9 +364,10 @@ class Step:
                                 f_, whole = sh.field_of(so[2]["place"])
                                 if f_ == sh.idx["buffer"] and whole:
                                     plain = True
+            notes = notes + (("token", loc(t)),)
             if plain:
                 return [(TOP, (live, emitted + live, lastc, row_inc, col_inc, col_reset, notes), None)]
-            return [(TOP, ts, None)]
+            return [(TOP, (live, emitted, lastc, row_inc, col_inc, col_reset, notes), None)]
         g_ = self.F.fns.get(d)
         if g_ is not None and g_ in sh.methods and d != sh.consumer["path"] and g_["mir"]["argc"] >= 1 and g_["mir"]["locals"][1]["ty"].startswith("&mut "):
             return self.inline_method(interp, env, ts, t, args, g_)
@@ -652,6 +653,8 @@ def rule_A7(ctx):
                 bad.append("dropped" if live + emitted == 0 else "duplicated(%d)" % (live + emitted))
             if sc is not None and not (isinstance(sc, tuple) and sc == ("c", 1)):
                 bad.append("skip-flag-left-set")
+            if sum(1 for n_ in notes if n_[0] == "token") > 1:
+                bad.append("two-tokens-in-one-step")
         if not (s["code"] == 0 and s["at_end"]):
             for kind, where, msg in s["viol"]:
                 bad.append(kind)
@@ -660,7 +663,8 @@ def rule_A7(ctx):
             groups.setdefault((s["state"], b), []).append(s["code"])
     for (state, b), codes in sorted(groups.items()):
         what = {"dropped": "is neither kept in the token buffer nor part of an emitted token: it is silently dropped", "skip-flag-left-set": "leaves the one-shot 'do not start a token with this character' flag set for the next character, which is then dropped",
-                "dropped-by-reset": "is discarded by a buffer reset before any token was made from it"}.get(b, "is accounted %s" % b)
+                "dropped-by-reset": "is discarded by a buffer reset before any token was made from it",
+                "two-tokens-in-one-step": "makes the step build two tokens although it can hand back only one: the first one (text consumed earlier) is overwritten and lost"}.get(b, "is accounted %s" % b)
         r.finding(sh.consumer["path"], "%s:%s" % (b, state), loc(sh.consumer["mir"]["blocks"][0]["term"]),
                   "in lexing state %s the character %s %s (on a path that records no error)" % (state, ", ".join(_chr(c) for c in codes[:6]) + (" ..." if len(codes) > 6 else ""), what))
     r.analysed["states"] = sh.state_variants
